@@ -9,6 +9,7 @@ import (
 	"io"
 	"net/http"
 	"net/http/httptest"
+	"net/url"
 	"os"
 	"path/filepath"
 	"strings"
@@ -182,7 +183,24 @@ func c09Splits(r *core.Run) {
 			if resign == "other" {
 				first = map[string]string{"rsa1": "rsa2", "rsa2": "rsa1", "ec1": "ec2", "ec2": "ec1"}[first]
 			}
-			if err := c.presign(idents[first], first, pgpKeys); err == nil {
+			// the earlier signature may have been made with other options than
+			// this one (whoever signed first did not know who would sign next)
+			saved := c.Flags
+			if c.Mod == "msi" && t.Chance(1, 2, "first-signature-other-options") {
+				c.Flags = url.Values{}
+				for k, v := range saved {
+					c.Flags[k] = v
+				}
+				if saved.Get("no-extended-sig") != "" {
+					c.Flags.Del("no-extended-sig")
+				} else {
+					c.Flags.Set("no-extended-sig", "true")
+				}
+				r.Probe("first-signature-made-with-other-options")
+			}
+			err := c.presign(idents[first], first, pgpKeys)
+			c.Flags = saved
+			if err == nil {
 				r.Probe("already-signed-input")
 			} else if strings.HasPrefix(err.Error(), "sign: ") {
 				// the module rejects this key/digest/option combination; the
